@@ -54,3 +54,24 @@ func VerifStopArmedTimers(owner any) (recorded, armed int) {
 	}
 	return len(ts), armed
 }
+
+var verifPoints struct {
+	mu sync.Mutex
+	f  func(name string)
+}
+
+// VerifSetPointHook installs f to be called at every verifPoint (nil: none).
+func VerifSetPointHook(f func(name string)) {
+	verifPoints.mu.Lock()
+	verifPoints.f = f
+	verifPoints.mu.Unlock()
+}
+
+func verifPoint(name string) {
+	verifPoints.mu.Lock()
+	f := verifPoints.f
+	verifPoints.mu.Unlock()
+	if f != nil {
+		f(name)
+	}
+}
